@@ -128,10 +128,10 @@ func av1CodecFromSequenceHeader(obu []byte) string {
 
 // codecFromParamBytes: the codecs string of a video track whose current parameters have id p, computed
 // from the very bytes the harness hands to the muxer for that id
-func codecFromParamBytes(kind int, p int64) string {
+func codecFromParamBytes(h *history, kind int, p int64) string {
 	switch kind {
 	case kH264:
-		return h264CodecFromSPS(spsOf(p))
+		return h264CodecFromSPS(spsOf(h, p))
 	case kH265:
 		return h265CodecFromSPS(h265SPSOf(p))
 	case kVP9:
